@@ -17,7 +17,7 @@ import (
 
 // K is the keyword alphabet: the RFC 7950 keywords, the builder's meta names, an unknown word and a
 // prefixed (extension) keyword.
-var K = strings.Fields(`action anydata anyxml argument augment base belongs-to bit case choice config contact container default description deviate deviation enum error-app-tag error-message extension feature fraction-digits grouping identity if-feature import include input key leaf leaf-list length list mandatory max-elements min-elements modifier module must namespace notification ordered-by organization output path pattern position prefix presence range reference refine require-instance revision revision-date rpc status submodule type typedef unique units uses value when yang-version yin-element Name Statement Parent Ext bogus p:ext`)
+var K = strings.Fields(`action anydata anyxml argument augment base belongs-to bit case choice config contact container default description deviate deviation enum error-app-tag error-message extension feature fraction-digits grouping identity if-feature import include input key leaf leaf-list length list mandatory max-elements min-elements modifier module must namespace notification ordered-by organization output path pattern position prefix presence range reference refine require-instance revision revision-date rpc status submodule type typedef unique units uses value when yang-version yin-element Name Statement Parent Ext bogus p:ext p:e:f`)
 
 // mandatory substatements per RFC 7950 (cardinality 1 rows), as (keyword, text) pairs
 var need = map[string][][2]string{
@@ -276,6 +276,8 @@ func stmt(k, arg string, omit int) string {
 }
 
 func meta(k string) bool {
+	// p:e:f (two colons) is tried like any keyword: whether it counts as prefixed (extensions list)
+	// or as unknown (rejected) the statement does not say; accepted, it must satisfy the bijection
 	return k == "Name" || k == "Statement" || k == "Parent" || k == "Ext" || k == "bogus" || k == "p:ext"
 }
 
@@ -301,8 +303,8 @@ func contexts(tier string) [][]string {
 			continue
 		}
 		for _, k := range K {
-			if seen[k] || meta(k) {
-				continue
+			if seen[k] || meta(k) || strings.Contains(k, ":") {
+				continue // an extension statement is a unit: nothing below it is built
 			}
 			if f, acc := check(Input{Text: render(c, stmt(k, "y", 0))}); f == nil && acc {
 				seen[k] = true
@@ -431,7 +433,7 @@ func run(c *core.Ctx) {
 			}
 			// a prefixed keyword is an extension statement whatever its local name is: it must be
 			// accepted exactly where any other extension statement is, and filed in the extensions list
-			if !meta(k) && k != "p:ext" {
+			if !meta(k) && !strings.Contains(k, ":") {
 				_, accExt := check(Input{Text: render(chain, "p:e z;")})
 				in := Input{Text: render(chain, "p:"+k+" z;")}
 				_, accK := check(in)
